@@ -1,6 +1,7 @@
 """Property -> units / harnesses / stated assumptions.  Units are /verif/units/<name>.vrs."""
 
 UNIT_NOTES = {
+    "blockdb": "L3 block-keyed table BlockDatabase<V>: get/set/commit/clear_cache/last_key/reorg over the DB shim (view = cache over disk)",
     "table": "L3 versioned table BlockCachedDatabase<K,V,C> over the DB shim: latest/set/unset/retrieve_cache/clear_cache (+commit/reorg/get_range/all)",
     "history": "L2 per-key history BlockHistoryCacheData<V>: new/latest/set/unset/reorg/is_old/remove_old_values against the abstract Map<u64,Option<V>> model",
     "scalars": "L5 scalar kernels: get_gas_limit, get_inscription_byte_len (+ lemma: parked transactions keep at most their allowance)",
@@ -8,7 +9,7 @@ UNIT_NOTES = {
 
 PROPS = {
     "C13": {
-        "units": ["history", "table"],
+        "units": ["history", "table", "blockdb"],
         "kani": [],
         "level": "proof",
         "assumptions": [],
